@@ -462,6 +462,11 @@ def check_property(prop, tier, seed):
     floor = plan.floor(prop, tier)
     distinct = union_count(hash_files) + agg.get("distinct_extra", 0)
     states_union = union_count(state_files) if state_files else agg.get("states", 0)
+    for f in hash_files + state_files:   # only needed for the unions above; they are large
+        try:
+            os.remove(f)
+        except OSError:
+            pass
     wall = time.time() - t0
     if not real and not inconclusive and agg["nonvac"] < floor:
         inconclusive.append(f"only {agg['nonvac']} non-vacuous oracle evaluations (floor {floor})")
